@@ -3,7 +3,57 @@
 import json, os, subprocess
 ROOT = os.path.dirname(os.path.dirname(os.path.abspath(__file__)))
 
+TREE_NOTE = "Trusted: TreeModel (mc/src/tree/model.rs, ~400 lines written from the statements), the scripted puppet contract and its out-of-band trace, SnapStorage, the classification of divergences by kind (only the first divergence of a trace is classified; kinds that belong to other properties are counted in the evidence, not reported). Contract address values come from the subject's public address generator. Not covered: trees above the size bound, message kinds outside the family alphabets."
+TREE_TECH = "bounded-exhaustive enumeration (ranked/unranked grammar, nothing sampled) of message-tree programs x start states, each executed on the real App and on a reference interpreter in lock-step; refinement check of trace, outcome, response and final state per execution"
 CHECKS = {
+ "C01": dict(engine="E2 tree", ref="DESIGN.md §4 C01", technique=TREE_TECH + "; plus exhaustive execute_multi sequences",
+   text="Every message-tree program up to the size bound (quick 6 / thorough 7 nodes for execute; 4 / 6 for the other entry points) with a failure flag on every leaf position is submitted through execute, wasm_sudo, sudo(Wasm), the instantiate / execute / migrate / send_tokens helpers and sudo(Bank), from genesis, six fixed non-initial states and every state reachable by 1 (2) small transactions; execute_multi runs every sequence of 1..3 messages over all small programs. Asserted: Err => every byte of storage and the block unchanged (model-free); Ok => every state cell the tree had to change holds the model's value; helpers return the model's address; execute_multi runs in order, each message sees its predecessors, one response per message identified by its unique data.",
+   note=TREE_NOTE + " Whether an outcome should be Ok or Err is decided by the other properties; C01 judges only atomicity, ordering and persistence."),
+ "C02": dict(engine="E2 tree", ref="DESIGN.md §4 C02", technique=TREE_TECH,
+   text="All programs of the control-flow grammar (calls to self/other, bank leaves that succeed or overdraw, four reply_on modes, failing bodies and failing reply handlers at every position) up to 6 / 7 nodes from genesis, up to 4 / 5 from six non-initial states and up to 3 / 4 from every state reachable by 1 / 2 small transactions, plus the rich-message family (burn, delegate, admin changes, instantiate, migrate, funded calls) up to 3 / 4. Asserted per execution: top-level Ok/Err equals the model's (absorbed iff reply_on Error/Always and the reply succeeds), the final state equals the model's (writes, overwrites, deletes and funds of discarded sub-trees are gone, earlier siblings' effects stay), and the storage and query views at every entry show exactly the completed, not-rolled-back effects.",
+   note=TREE_NOTE),
+ "C03": dict(engine="E2 tree", ref="DESIGN.md §4 C03", technique=TREE_TECH,
+   text="Same program space as C02 (with unique sub-message ids, empty and non-empty payloads, call / bank / instantiate / migrate sub-messages). The recorded invocation sequence must equal the model's as a whole: reply exactly once where (ok and Success/Always) or (err and Error/Always) and never otherwise, on the dispatching contract, after the sub-message's subtree and before the next sibling, with id and payload unchanged, Ok/Err as the sub-message ended, and events / data equal to what that sub-message produced (events additionally cross-checked against the slice the sub-message contributed to the transaction's own response).",
+   note=TREE_NOTE + " A Reply whose events differ from the model but equal what the sub-message contributed to the top-level response is attributed to C04, not C03."),
+ "C04": dict(engine="E2 tree", ref="DESIGN.md §4 C04", technique=TREE_TECH,
+   text="Data/event-focused family: every tree up to 3 (thorough 4) nodes x every reply_on assignment x per node {data absent / present-but-empty / unique} x {attributes or none} x {custom events or none} x {fails or not} for root kinds execute, instantiate, migrate, sudo and the execute helper, plus the control-flow family up to 6 / 7 nodes and the rich family. Compared with the model: event types and order, entry-point events carry the address, wasm event = address + attributes unchanged, custom events renamed wasm-<type> with the address first, transfer events, nothing from failed sub-messages; data = last reply that set data else own, execute/migrate wrapped only when present, instantiate always wrapped (hand-encoded protobuf); the same for every Reply payload.",
+   note=TREE_NOTE + " Extra attributes on entry-point events (code_id, mode) are ignored."),
+ "C05": dict(engine="E2 tree", ref="DESIGN.md §4 C05", technique=TREE_TECH,
+   text="Funds-focused family: every tree up to 4 / 5 nodes in which every call and instantiate (and the entry) carries one of {no funds, one coin, two denominations, more than anyone owns}, through execute / instantiate / sudo / migrate entries, by a rich and a penniless signer, from three blocks (initial, after update_block, after set_block with other height, time and chain id); plus the control-flow family up to 5 / 6 nodes from all three blocks. Every entry-point record must show the model's sender (signer at top level, emitting contract below, also for messages from reply handlers), the callee's own address, the App's block, the funds attached, and an own balance that already includes them; failing calls give the funds back (next entry's balances), and over-attached funds never run the callee.",
+   note=TREE_NOTE),
+ "C08": dict(engine="E3 explore", ref="DESIGN.md §4 C08", technique="layered breadth-first search over raw chain states (full storage dump) with operations executed on the real App and on the reference model; witness-path replay of every new state",
+   text="From a state in which bank, staking and the registry hold entries: every sequence of <=2 (thorough 3) operations over {contract X in {A,B,C} sets / removes key k, App::contract_storage_mut(X) sets / removes k, bank send, delegation, instantiate}, k in {empty key, 'k', 0xFF, an existing key} plus adversarial keys harvested from the raw state itself (raw keys of other contracts, of balances, of staking entries, of the registry, and their length-prefix-boundary prefixes and suffixes). After every transition all other contracts, all balances, delegations and registry entries must be unchanged (model comparison through public accessors), and in every state the four views agree for every contract and key: the contract's own reads (trace), WasmQuery::Raw, dump_wasm_raw, App::contract_storage get and range.",
+   note="Trusted: TreeModel's one-map-per-contract storage, the harvested key alphabet. Not built: the world with prefix-related addresses (custom Api/AddressGenerator) sketched in DESIGN.md."),
+ "C09": dict(engine="E3 explore", ref="DESIGN.md §4 C09", technique="explicit-state search to the fixpoint over all reachable ledgers under a supply cap, real bank keeper as transition function, lock-step ledger model; state count cross-checked with stateright",
+   text="Accounts {a, b, never-seen c, contract K}, coin lists {[], [0x], [1x], [2x], [1x,1y], [1x,1x], [0x,1y], [0x,0y], [3x]} (thorough: more), operations sudo Mint (while supply <= cap 2 / 3 per denom), Send between all ordered pairs incl. self, Burn, contract-initiated Send/Burn, funds attached to a call, send_tokens, init_balance. The reachable state space is finite and explored completely (closure, not a depth cut). Every transition is compared with the ledger model (fails iff no positive amount or a balance would go negative; nothing changes on failure); in every state Balance, AllBalances (sorted, no zeros, no duplicates) and Supply agree with each other and the model and supply = sum of balances.",
+   note="Trusted: the ledger model in TreeModel (MState::send/burn/mint). Amounts near 2^128 are excluded by the statement."),
+ "C10": dict(engine="E2 tree", ref="DESIGN.md §4 C10", technique=TREE_TECH + "; plus exhaustive query-kind sweep in every explored state",
+   text="Every entry of every program of the control-flow family (<= 6 / 7 nodes), and with the extended bundle (Raw, ContractInfo, CodeInfo, Delegation, Custom, all balances) of the families up to 5 / 6 nodes, issues a fixed bundle of queries before its own writes; the answers must equal the model's state at that point (completed effects visible incl. funds just received, rolled-back ones not). Through App: in every start state and every state reachable by 1 / 2 small transactions every query kind x every address/key of the alphabet (incl. malformed requests) is issued twice: same answer, zero raw writes (counted in the storage), storage byte-identical, answers equal to the committed model state.",
+   note=TREE_NOTE + " Visibility of a contract's own uncommitted writes to its own queries is not asserted."),
+ "C11": dict(engine="E3 registry", ref="DESIGN.md §4 C11", technique="layered breadth-first search over (code registry, raw storage) states with the real App rebuilt per transition, lock-step RegistryModel, history replay of every new state",
+   text="All histories up to depth 4 / 6 over store_code, store_code_with_creator, store_code_with_id(0,1,2,3,5[,9]), duplicate_code(same ids), instantiate and instantiate2 (codes incl. missing ones, two creators, labels/admins, three salts incl. 64 bytes, init ok/failing), instantiate inside a transaction that then fails, migrate to every id. Asserted: id assignment (max+1, chosen ids honoured, 0 and duplicates rejected without effect), every stored or duplicated id answers CodeInfo (duplicates share creator and checksum) and can be instantiated and migrated to, fresh addresses, salted address single-valued over the whole exploration and injective, repeats rejected without effect, recorded code id / creator / admin / label.",
+   note="Trusted: RegistryModel (mc/src/reg.rs). An accepted empty label is not asserted."),
+ "C12": dict(engine="E3 explore", ref="DESIGN.md §4 C12", technique="explicit-state search (quick: depth 3; thorough: to the fixpoint) over admin/code/storage states, real wasm keeper as transition function, lock-step model; state count cross-checked with stateright",
+   text="Contracts A (admin: creator), B (admin: contract A), C (no admin); senders creator, stranger, and contracts A/B acting through sub-messages (reply_on Never and Error); operations UpdateAdmin(to creator/stranger/A), ClearAdmin, Migrate(code 1/2/missing, migrate entry ok/failing), Execute, sudo. Every transition: succeeds iff sender is the current admin (and code exists, entry succeeds), otherwise nothing changes; after a migration the trace shows the new code's migrate entry ran once at the same address on the existing storage and every later call is served by the new code; admin changes govern the next attempt.",
+   note="Trusted: TreeModel's admin/migrate rules."),
+ "C13": dict(engine="E2 tree", ref="DESIGN.md §4 C13", technique="exhaustive cross product of strings x positions x entry points x contexts on the real App; differential verdict against two reference runs (validity decided correctly / the wrong way round)",
+   text="22 strings (empty, whitespace, underscores in every position, 1-2 byte boundary incl. 2-byte 'é', untrimmed forms) x {attribute key, attribute value, event attribute key, event attribute value, event type} x entry points {execute, instantiate, migrate, sudo, reply} x contexts {top level; sub-message under each reply_on; two levels deep; reply handler of ok/failed child, one and two levels deep}, the node writing and receiving funds first. The real run must equal the model that applies the stated predicate; equality with the model that decides the opposite is a violation; valid strings must surface unchanged in the emitted events.",
+   note=TREE_NOTE + " Only ASCII whitespace and non-whitespace Unicode occur in the alphabet."),
+ "C14": dict(engine="E3 staking", ref="DESIGN.md §4 C14", technique="layered breadth-first search over staking histories (state = raw storage + block + hidden exact-rational model), per-transition relation check with interval oracles, invalid operations tried in every explored state, history replay of every new state",
+   text="All histories to depth 6 over a 12-operation alphabet (thorough: depth 7, and depth 6 over 20 operations) of delegate / undelegate / redelegate / withdraw / set withdraw address / slash (25, 50, 100%) / update_block (59 s, 60 s, 1 year) / set_block for two delegators and two validators; in every explored state 17 invalid operations (zero, foreign denom, unknown validator, too much, fraction > 1). Asserted: exact balance / pool / shown-delegation changes, invalid operations fail without changing a byte, matured unbondings are paid within [floor(exact) - #slashes, floor(exact)] and nothing earlier, Delegation and AllDelegations agree, no call or block update panics or fails.",
+   note="Trusted: the exact-rational hidden model and the per-operation relation in mc/src/staking.rs. A valid undelegation failing in a state with fractional shares is tolerated (counted)."),
+ "C15": dict(engine="E3 staking", ref="DESIGN.md §4 C15", technique="layered breadth-first search over reward histories with an exact-rational reward bound per delegation; split-vs-unsplit block update variants from every explored state",
+   text="All histories to depth 5 / 6 over stakes 100 and 333, commissions 10% and 0%, time steps 1/3 y, 1/2 y, (1 y,) 1 s, withdrawals, withdraw-address changes, undelegation and a 50% slash. In every state: withdrawn + pending <= sum of stake x apr x (1 - commission) x dt / year and > lower bound - (withdrawals + 1) - 1e-9; a successful withdrawal pays exactly the pending amount shown before to the current withdraw address, resets it, mints nothing else, leaves other pairs' pending untouched. From every explored state every advance step is also run split into 2 and 3 block updates; pending must agree (+-1 only when the exact reward is within 1e-9 of a whole token).",
+   note="Trusted: the reward accumulator of the hidden model. The 1e-9 slack admits the 18-decimal fixed-point rounding the statement itself mentions. Rewards forfeited when a delegation drops to zero are outside the statement."),
+ "C16": dict(engine="E3 staking", ref="DESIGN.md §4 C16", technique="layered breadth-first search over staking histories; in every explored state every slash fraction on every validator, followed by a second slash and maturity",
+   text="All histories to depth 4 / 5 over delegations of 2-4 tokens, undelegation, redelegation, time steps and slashes of 10% / 50%; in every explored state each fraction {0, 10, 25, 50, 99, 100, 101, 200%} on v1, v2 and an unknown validator, then 25% again and a block update maturing all unbondings. Asserted per pair: new shown delegation in [floor((1-p) x old shown), floor((1-p) x exact shares)], never larger than before, gone (also from AllDelegations) for p = 1; other validators' delegations, all balances and accrued rewards unchanged; fractions > 1 and unknown validators rejected without changing a byte; unbondings later pay within the C14 interval.",
+   note="Trusted: exact shares of the hidden model (an upper bound of what any implementation holds)."),
+ "C18": dict(engine="E4 cfg", ref="DESIGN.md §4 C18", technique="exhaustive input enumeration against an independent BIP-173/350 reference codec",
+   text="Codecs {MockApiBech32, MockApiBech32m, MockApi} x prefixes {a, juno, cosmwasm, osmo1x, an 83-character one}: all byte strings of length 1 and 2 (thorough: all 16.7 M of length 3), all strings over {00, ff} up to length 12, seven patterns for every length up to 64; all names of length <= 3 over {a, b, 0, space, é}; for ten valid addresses per codec every single-character substitution (bech32 charset, separator, b/i/o, case flip), deletion, mixed-case form, the other checksum variant, other prefixes, and re-checksummed non-canonical spellings (non-zero padding bits, extra zero groups). Asserted: round trip, humanize equals the reference encoder, validate returns its input unchanged whenever it accepts, every corruption / foreign string rejected, addr_make deterministic, valid and injective, helper traits agree with the Api.",
+   note="Trusted: Bech32Ref (mc/src/addr.rs). All-upper-case input is not asserted either way."),
+ "C19": dict(engine="E3 det", ref="DESIGN.md §4 C19", technique="exhaustive enumeration of histories and of interleavings of history pairs on independent App instances; transcript equality; digest recomputed in a second OS process",
+   text="(a) every history up to length 4 / 5 over 10 / 14 operations (store / duplicate / store-with-id, instantiate ok and failing, instantiate2, execute ok / failing / with caught failure, sudo, bank send, mint, delegate, update_block) run on two independently built Apps: results, events, data, code ids, addresses, checksums, invocation traces and final raw dump identical; (b) every ordered pair of histories up to length 2 / 3 on two Apps in one thread under every interleaving: each transcript equals its solo transcript; (c) the digest of everything equals the digest computed by a second process with another worker-thread count.",
+   note="Dependence on wall-clock time or randomness is only visible if it changes an observable between two runs within the check."),
  "C06": dict(engine="E1 kv", ref="DESIGN.md §4 C06",
    technique="exhaustive enumeration of overlay configurations and operation histories on the real write-cache, lock-step comparison with an ordered-map model",
    text="Every configuration of a 1-3 level write-cache stack over a 4-6 key alphabet (base present/absent x untouched/set/deleted per level) and every well-formed history of set/remove/push/commit/discard up to length 5-8 is executed on the real StorageTransaction / transactional() (hook `verif`) and every get and every range (all bound pairs incl. empty, inverted, equal; both orders) is compared with a plain BTreeMap model on the top level, every lower level and the base. Bounded-exhaustive: no case inside the alphabet is skipped.",
@@ -53,6 +103,12 @@ def main():
         },
         "engines": [
             {"name": "E1 kv", "path": "mc/src/kv.rs", "serves_properties": ["C06", "C07"], "kind_free_text": "bounded-exhaustive enumeration of KV configurations/histories on the real overlay and prefixed views vs. ordered-map models"},
+            {"name": "E2 tree", "path": "mc/src/tree/", "serves_properties": ["C01", "C02", "C03", "C04", "C05", "C10", "C13"], "kind_free_text": "ranked grammar of message-tree programs, scripted puppet contracts with out-of-band trace, TreeModel reference interpreter, divergence classifier"},
+            {"name": "E3 explore", "path": "mc/src/tree/explore.rs, mc/src/tree/hist.rs", "serves_properties": ["C08", "C09", "C12"], "kind_free_text": "layered BFS over raw chain states with tree programs as operations, witness-path replay, stateright cross-check of closures"},
+            {"name": "E3 registry", "path": "mc/src/reg.rs", "serves_properties": ["C11"], "kind_free_text": "BFS over (code registry, storage) histories vs RegistryModel"},
+            {"name": "E3 staking", "path": "mc/src/staking.rs", "serves_properties": ["C14", "C15", "C16"], "kind_free_text": "BFS over staking histories with exact-rational interval oracle"},
+            {"name": "E3 det", "path": "mc/src/det.rs", "serves_properties": ["C19"], "kind_free_text": "histories and interleavings on independent App instances"},
+            {"name": "E4 cfg", "path": "mc/src/addr.rs", "serves_properties": ["C18"], "kind_free_text": "input enumeration vs an independent bech32 codec"},
         ],
         "checks": checks,
         "not_applicable": na,
